@@ -384,6 +384,11 @@ func runC16(r *core.Run) (bool, string) {
 		c16Concurrent(r)
 		return r.GetCount("conc_plain_calls") > 0, "the concurrency layer could not be run"
 	}
+	if strings.Contains(replaySig(r.Replay), "/several-timed-waiters/") {
+		// replay of a several-timed-waiters schedule (10 repetitions of that schedule)
+		c16WaitTimeoutMulti(r)
+		return r.Evals() > 0, "the replayed schedule could not be run"
+	}
 	c16Strings(r)
 	c16Maps(r)
 	c16AssumeAssert(r)
